@@ -6,6 +6,7 @@ import (
 	"bytes"
 	"context"
 	"errors"
+	"net"
 	"net/netip"
 	"os"
 	"sync/atomic"
@@ -22,6 +23,7 @@ import (
 
 // natUplinkMmsg is used for passing information about relay uplink to the relay goroutine.
 type natUplinkMmsg struct {
+	state          *atomic.Pointer[net.UDPConn]
 	clientName     string
 	clientAddrPort netip.AddrPort
 	natConn        *conn.MmsgWConn
@@ -329,6 +331,7 @@ func (s *UDPNATRelay) recvFromServerConnRecvmmsg(ctx context.Context, lnc *udpRe
 
 					s.wg.Go(func() {
 						s.relayServerConnToNatConnSendmmsg(ctx, natUplinkMmsg{
+							state:          &entry.state,
 							clientName:     clientInfo.Name,
 							clientAddrPort: clientAddrPort,
 							natConn:        natConn.NewWConn(),
@@ -502,6 +505,12 @@ main:
 				zap.Duration("natTimeout", uplink.natTimeout),
 				zap.Error(err),
 			)
+		}
+		// Stop swaps the session state before forcing the read deadline into the past.
+		// If that happened while we were sending, do not let the re-arm above keep the downlink
+		// goroutine, and therefore Stop, waiting for the NAT timeout.
+		if uplink.state.Load() != uplink.natConn.UDPConn {
+			_ = uplink.natConn.SetReadDeadline(conn.ALongTimeAgo)
 		}
 		verifhook.At("relay.uplink.afterRearm", s, uplink.clientAddrPort)
 
